@@ -14,6 +14,7 @@ package main
 import (
 	"encoding/json"
 	"fmt"
+	"math/big"
 	"os"
 	"os/exec"
 	"path/filepath"
@@ -580,21 +581,53 @@ func runSegs(cfg vhlib.Config, sum *vhlib.Summary, r *vhlib.Rng) {
 // values for the sort command
 // ---------------------------------------------------------------------------
 type val struct {
-	Kind  string // "i" int, "f" float (multiple of 1e-6), "s" string, "ns" numeric string, "null"
-	Micro int64  // numeric value in units of 1e-6
+	Kind  string // "i" int, "f" float (multiple of 1e-6), "s" string, "ns" numeric string, "null", "I" SS_DT_SIGNED_NUM over the whole int64 range, "U" SS_DT_UNSIGNED_NUM over the whole uint64 range
+	Micro int64  // numeric value in units of 1e-6 (kinds i, f, ns)
 	S     string
+	Bits  uint64 // kinds I, U: the 64 bits of CVal (int64(Bits) for I)
 }
 
 func (v val) enc() sutils.CValueEnclosure {
 	switch v.Kind {
 	case "i":
 		return sutils.CValueEnclosure{Dtype: sutils.SS_DT_SIGNED_NUM, CVal: v.Micro / 1000000}
+	case "I":
+		return sutils.CValueEnclosure{Dtype: sutils.SS_DT_SIGNED_NUM, CVal: int64(v.Bits)}
+	case "U":
+		return sutils.CValueEnclosure{Dtype: sutils.SS_DT_UNSIGNED_NUM, CVal: v.Bits}
 	case "f":
 		return sutils.CValueEnclosure{Dtype: sutils.SS_DT_FLOAT, CVal: float64(v.Micro) / 1e6}
 	case "s", "ns":
 		return sutils.CValueEnclosure{Dtype: sutils.SS_DT_STRING, CVal: v.S}
+	case "b":
+		return sutils.CValueEnclosure{Dtype: sutils.SS_DT_BOOL, CVal: v.S == "true"}
 	}
 	return sutils.CValueEnclosure{Dtype: sutils.SS_DT_BACKFILL, CVal: nil}
+}
+
+func (v val) isNum() bool { return v.Kind == "i" || v.Kind == "f" || v.Kind == "I" || v.Kind == "U" }
+
+// exact numeric value in units of 1e-6 (numbers only)
+func (v val) microBig() *big.Int {
+	switch v.Kind {
+	case "I":
+		return new(big.Int).Mul(big.NewInt(int64(v.Bits)), big.NewInt(1000000))
+	case "U":
+		return new(big.Int).Mul(new(big.Int).SetUint64(v.Bits), big.NewInt(1000000))
+	}
+	return big.NewInt(v.Micro)
+}
+
+// the float64 the comparator computes for a number (used only to separate the known float64
+// collapse of integer keys from real inversions)
+func (v val) f64() float64 {
+	switch v.Kind {
+	case "I":
+		return float64(int64(v.Bits))
+	case "U":
+		return float64(v.Bits)
+	}
+	return float64(v.Micro) / 1e6
 }
 
 func (v val) coq() string {
@@ -603,7 +636,11 @@ func (v val) coq() string {
 		e := v.enc()
 		s, _ := e.GetValueAsString() // string form as the real code produces it (used by op=str)
 		return fmt.Sprintf("(vnum %s %s)", vhlib.CoqZ(v.Micro), vhlib.CoqStr(s))
-	case "s":
+	case "I", "U":
+		e := v.enc()
+		s, _ := e.GetValueAsString()
+		return fmt.Sprintf("(vint %s %d %s)", vhlib.CoqBool(v.Kind == "U"), v.Bits, vhlib.CoqStr(s))
+	case "s", "b": // a bool has the string rank under every op and compares by its string form
 		return fmt.Sprintf("(vstr %s)", vhlib.CoqStr(v.S))
 	case "ns":
 		return fmt.Sprintf("(vnstr %s %s)", vhlib.CoqZ(v.Micro), vhlib.CoqStr(v.S))
@@ -615,12 +652,78 @@ func (v val) String() string {
 	switch v.Kind {
 	case "i":
 		return strconv.FormatInt(v.Micro/1000000, 10)
+	case "I":
+		return strconv.FormatInt(int64(v.Bits), 10) + "(int64)"
+	case "U":
+		return strconv.FormatUint(v.Bits, 10) + "(uint64)"
 	case "f":
 		return strconv.FormatFloat(float64(v.Micro)/1e6, 'f', -1, 64)
 	case "s", "ns":
 		return strconv.Quote(v.S)
+	case "b":
+		return v.S + "(bool)"
 	}
 	return "null"
+}
+
+// Integer-typed keys over the whole signed and unsigned 64-bit range.
+// exact=true (main stream): integers that float64 represents exactly (m * 2^k with m < 2^53),
+// so two different keys stay different in the comparator's float64 arithmetic: small values of
+// both dtypes, the neighbourhoods of 2^53, 2^62, 2^63 (largest int64 that is exact: 2^63-1024),
+// 2^64 (largest exact uint64: 2^64-2048), the most negative int64.
+// exact=false (separate stream): clusters of neighbouring integers above 2^53 whose float64
+// images coincide.
+func genInt64(r *vhlib.Rng, exact bool) val {
+	mk := func(neg bool, mag uint64) val {
+		switch {
+		case neg:
+			return val{Kind: "I", Bits: uint64(-int64(mag))} // mag <= 2^63
+		case mag >= 1<<63:
+			return val{Kind: "U", Bits: mag}
+		case r.Bool():
+			return val{Kind: "U", Bits: mag}
+		}
+		return val{Kind: "I", Bits: mag}
+	}
+	j := uint64(r.Intn(4))
+	if !exact {
+		switch r.Intn(6) {
+		case 0:
+			return mk(false, 1<<53+j)
+		case 1:
+			return mk(true, 1<<53+j)
+		case 2:
+			return mk(false, 1<<60+uint64(r.Intn(130))) // spacing 256
+		case 3:
+			return mk(false, 1<<63-2+j) // int64 and uint64 patterns on both sides of 2^63
+		case 4:
+			return mk(false, ^uint64(0)-uint64(r.Intn(1500))) // up to MaxUint64, spacing 2048
+		default:
+			return mk(true, 1<<63-uint64(r.Intn(600))) // down to MinInt64, spacing 1024
+		}
+	}
+	switch r.Intn(10) {
+	case 0:
+		return mk(r.Chance(30), uint64(r.Intn(21)))
+	case 1:
+		return mk(r.Chance(30), 1<<53-j)
+	case 2:
+		return mk(r.Chance(30), 1<<53+2*j)
+	case 3:
+		return mk(r.Chance(30), (1<<62)+j<<10)
+	case 4:
+		return mk(false, 1<<63-(j+1)<<10) // just below 2^63: the largest exact int64 values
+	case 5:
+		return mk(false, 1<<63+j<<11) // 2^63 and just above: uint64 only
+	case 6:
+		return mk(false, ^uint64(0)-(j+1)<<11+1) // 2^64 - 2048*(j+1)
+	case 7:
+		return mk(true, 1<<63-j<<10) // MinInt64 and just above
+	case 8:
+		return mk(r.Chance(30), uint64(r.Intn(1<<20))<<uint(r.Intn(43)))
+	default:
+		return mk(r.Chance(30), (uint64(r.Intn(1<<30))<<23|uint64(r.Intn(1<<23))|1<<52)<<uint(r.Intn(11))) // 53 significant bits
+	}
 }
 
 // numeric values of the main stream are multiples of 1e-3 (>= 1e-3 apart or equal)
@@ -628,7 +731,12 @@ func genNum(r *vhlib.Rng, close bool) val {
 	if close {
 		// known-finding stream: values closer than 1e-4
 		base := int64(r.Range(-2, 3)) * 1000000
-		return val{Kind: "f", Micro: base + int64(r.Range(-9, 9))*20}
+		// multiples of 3e-5: a difference of exactly 1e-4 (where float64 rounding of the
+		// subtraction decides, e.g. 1.0001-1 < 1e-4) does not occur
+		return val{Kind: "f", Micro: base + int64(r.Range(-9, 9))*30}
+	}
+	if r.Chance(25) {
+		return genInt64(r, true)
 	}
 	if r.Chance(40) {
 		return val{Kind: "i", Micro: int64(r.Range(-20, 20)) * 1000000}
@@ -663,16 +771,23 @@ func (e ele) coq() string {
 
 // oracle comparison for homogeneous columns: -1, 0, +1 in the requested direction;
 // ok=false when the pair is outside the oracle's scope (mixed kinds, nulls, op=str on numbers)
-func oracleCmp(e ele, a, b val) (int, bool) {
-	num := func(v val) bool { return v.Kind == "i" || v.Kind == "f" }
+func oracleCmp(e ele, a, b val) (int, bool) { return oracleCmpL(e, a, b, false) }
+
+// loose=true (only for the float64-collapse stream): integers are compared by their float64
+// images, i.e. keys that the known finding makes indistinguishable count as equal
+func oracleCmpL(e ele, a, b val, loose bool) (int, bool) {
 	c := 0
 	switch {
-	case num(a) && num(b) && e.Op != "str":
-		if a.Micro < b.Micro {
+	case a.isNum() && b.isNum() && e.Op != "str" && loose:
+		fa, fb := a.f64(), b.f64()
+		if fa < fb {
 			c = -1
-		} else if a.Micro > b.Micro {
+		} else if fa > fb {
 			c = 1
 		}
+	case a.isNum() && b.isNum() && e.Op != "str":
+		// the numeric order of the property text: exact values, whatever the dtype
+		c = a.microBig().Cmp(b.microBig())
 	case a.Kind == "s" && b.Kind == "s" && !mightBeNum(a.S) && !mightBeNum(b.S):
 		c = strings.Compare(a.S, b.S)
 	default:
@@ -689,9 +804,11 @@ func mightBeNum(s string) bool {
 	return err == nil
 }
 
-func oracleLess(eles []ele, a, b []val) (int, bool) {
+func oracleLess(eles []ele, a, b []val) (int, bool) { return oracleLessL(eles, a, b, false) }
+
+func oracleLessL(eles []ele, a, b []val, loose bool) (int, bool) {
 	for i, e := range eles {
-		c, ok := oracleCmp(e, a[i], b[i])
+		c, ok := oracleCmpL(e, a[i], b[i], loose)
 		if !ok {
 			return 0, false
 		}
@@ -703,10 +820,20 @@ func oracleLess(eles []ele, a, b []val) (int, bool) {
 }
 
 // judgeSorted: adjacent results in order; result = a prefix of the full order (as key lists)
-func judgeSorted(sum *vhlib.Summary, classPrefix string, eles []ele, all [][]val, res [][]val, limit int, knownClose bool, detail string, c interface{}) {
+// knownClass != "": the input comes from the separate stream of that known-finding class
+func judgeSorted(sum *vhlib.Summary, classPrefix string, eles []ele, all [][]val, res [][]val, limit int, knownClass string, detail string, c interface{}) {
 	clsOrder, clsPrefix := "sort_out_of_order", "sort_limit_not_prefix"
-	if knownClose {
-		clsOrder, clsPrefix = "sort_almost_equals_tolerance", "sort_almost_equals_tolerance"
+	if knownClass != "" {
+		clsOrder, clsPrefix = knownClass, knownClass
+	}
+	if knownClass == clsCollapse {
+		// an inversion that the coinciding float64 images cannot explain belongs to the main class
+		for i := 1; i < len(res); i++ {
+			if cmp, ok := oracleLessL(eles, res[i-1], res[i], true); ok && cmp > 0 {
+				sum.Fail("sort_out_of_order", fmt.Sprintf("%s: result row %d %v comes before row %d %v", detail, i-1, res[i-1], i, res[i]), c)
+				return
+			}
+		}
 	}
 	for i := 1; i < len(res); i++ {
 		cmp, ok := oracleLess(eles, res[i-1], res[i])
@@ -749,6 +876,20 @@ func judgeSorted(sum *vhlib.Summary, classPrefix string, eles []ele, all [][]val
 // ---------------------------------------------------------------------------
 // direct tier: compareValues, sortProcessor, head, tail
 // ---------------------------------------------------------------------------
+const (
+	clsTolerance = "sort_almost_equals_tolerance"
+	clsCollapse  = "sort_int_keys_float64_collapse"
+)
+
+// stream: 0 main, 1 numeric keys closer than 1e-4 (known finding), 2 integer keys above 2^53
+// whose float64 images coincide (known finding)
+func genValS(r *vhlib.Rng, kindMix int, stream int) val {
+	if stream == 2 {
+		return genInt64(r, false)
+	}
+	return genVal(r, kindMix, stream == 1)
+}
+
 func genVal(r *vhlib.Rng, kindMix int, close bool) val {
 	switch kindMix {
 	case 0:
@@ -756,7 +897,9 @@ func genVal(r *vhlib.Rng, kindMix int, close bool) val {
 	case 1:
 		return genStr(r)
 	default: // mixed column
-		switch r.Intn(6) {
+		switch r.Intn(7) {
+		case 6:
+			return val{Kind: "b", S: vhlib.Pick(r, []string{"true", "false"})}
 		case 0, 1:
 			return genNum(r, close)
 		case 2:
@@ -780,8 +923,12 @@ func runCompare(cfg vhlib.Config, sum *vhlib.Summary, r *vhlib.Rng) {
 		n = 15000
 	}
 	for i := 0; i < n; i++ {
-		close := i%10 == 9 // known-finding stream: the model has the same tolerance, so it still must agree
-		a, b := genVal(r, 2, close), genVal(r, 2, close)
+		close := i%10 == 9 // known-finding streams: the model has the same tolerance / float64 conversion, so it still must agree
+		stream := 0
+		if close {
+			stream = 1 + (i/10)%2
+		}
+		a, b := genValS(r, 2, stream), genValS(r, 2, stream)
 		if r.Chance(15) {
 			b = a
 		}
@@ -794,7 +941,7 @@ func runCompare(cfg vhlib.Config, sum *vhlib.Summary, r *vhlib.Rng) {
 		if (got == 1) != (back == 1) || (got == 2 && back != 3) || (got == 3 && back != 2) {
 			sum.Fail("compare_values_not_antisymmetric", fmt.Sprintf("compareValues(%v,%v,asc=%v,op=%q)=%d but reversed=%d", a, b, e.Asc, e.Op, got, back), c)
 		}
-		if oc, ok := oracleCmp(e, a, b); ok && !close {
+		if oc, ok := oracleCmp(e, a, b); ok && stream != 1 {
 			want := 1
 			if oc < 0 {
 				want = 2
@@ -802,12 +949,21 @@ func runCompare(cfg vhlib.Config, sum *vhlib.Summary, r *vhlib.Rng) {
 				want = 3
 			}
 			if got != want {
-				sum.Fail("sort_out_of_order", fmt.Sprintf("compareValues(%v,%v,asc=%v,op=%q)=%d, the requested order says %d", a, b, e.Asc, e.Op, got, want), c)
+				cls := "sort_out_of_order"
+				if stream == 2 && got == 1 {
+					// known finding: two different integers with the same float64 image are EQUAL;
+					// the opposite direction stays in the main class
+					cls = clsCollapse
+				}
+				sum.Fail(cls, fmt.Sprintf("compareValues(%v,%v,asc=%v,op=%q)=%d, the requested order says %d", a, b, e.Asc, e.Op, got, want), c)
 			}
 		}
 		terms = append(terms, fmt.Sprintf("(%s,%s,%s,%d)", e.coq(), a.coq(), b.coq(), got))
 		sum.Eval(fmt.Sprintf("cmp/%v/%v/%v", a, b, e), a != b)
 		sum.Count("compare_values/" + a.Kind + "_" + b.Kind)
+		if stream == 2 {
+			sum.Count("compare_values/known_stream_int_float64_collapse")
+		}
 	}
 	writeSharded(cfg, sum, "cases_cmp", "list ((bool * N) * value * value * N)", "check_cmp cases", terms, 500)
 }
@@ -824,14 +980,15 @@ func runSortProc(cfg vhlib.Config, sum *vhlib.Summary, r *vhlib.Rng) {
 		n = 4000
 	}
 	for i := 0; i < n; i++ {
-		known := i%8 == 7 // separate stream: numeric keys closer than 1e-4
+		known := i%8 == 7    // separate stream: numeric keys closer than 1e-4
+		collapse := i%8 == 3 // separate stream: integer keys above 2^53 with coinciding float64 images
 		nk := r.Range(1, 3)
 		eles := make([]ele, nk)
 		mix := make([]int, nk)
 		for k := range eles {
 			eles[k] = ele{Asc: r.Bool(), Op: vhlib.Pick(r, opsAll)}
 			mix[k] = r.Intn(3)
-			if known {
+			if known || (collapse && k == 0) {
 				mix[k] = 0
 				if eles[k].Op == "str" {
 					eles[k].Op = "num"
@@ -853,7 +1010,13 @@ func runSortProc(cfg vhlib.Config, sum *vhlib.Summary, r *vhlib.Rng) {
 				rec := srec{ID: id}
 				id++
 				for k := range eles {
-					rec.Keys = append(rec.Keys, genVal(r, mix[k], known && k == 0))
+					stream := 0
+					if known && k == 0 {
+						stream = 1
+					} else if collapse && k == 0 {
+						stream = 2
+					}
+					rec.Keys = append(rec.Keys, genValS(r, mix[k], stream))
 				}
 				recs = append(recs, rec)
 			}
@@ -908,8 +1071,14 @@ func runSortProc(cfg vhlib.Config, sum *vhlib.Summary, r *vhlib.Rng) {
 			sum.Fail("sort_duplicate_or_unknown_row", fmt.Sprintf("sort returned ids %v", ids), c)
 			continue
 		}
-		judgeSorted(sum, "direct", eles, all, res, limit, known, fmt.Sprintf("sortProcessor %v limit=%d over %d batches", eles, limit, len(in)), c)
-		// Coq case (the known stream is not compared with the model: under a comparator that
+		knownClass := ""
+		if known {
+			knownClass = clsTolerance
+		} else if collapse {
+			knownClass = clsCollapse
+		}
+		judgeSorted(sum, "direct", eles, all, res, limit, knownClass, fmt.Sprintf("sortProcessor %v limit=%d over %d batches", eles, limit, len(in)), c)
+		// Coq case (the tolerance stream is not compared with the model: under a comparator that
 		// is not a strict weak order the heap and the insertion sort may legitimately differ)
 		if !known {
 			et := make([]string, nk)
@@ -936,6 +1105,8 @@ func runSortProc(cfg vhlib.Config, sum *vhlib.Summary, r *vhlib.Rng) {
 		sum.Eval(fmt.Sprintf("sortproc/%d", i), len(all) > 1)
 		if known {
 			sum.Count("sort_processor/known_stream_close_values")
+		} else if collapse {
+			sum.Count("sort_processor/known_stream_int_float64_collapse")
 		} else {
 			sum.Count(fmt.Sprintf("sort_processor/keys%d", nk))
 		}
@@ -1039,6 +1210,7 @@ type event struct {
 	VM int64   `json:"vm"` // v in units of 1e-6
 	S  string  `json:"s"`
 	G  int     `json:"g"`
+	N  int64   `json:"n"` // integer column over the whole int64 range (ingest keeps integers as int64)
 }
 
 type step struct {
@@ -1079,7 +1251,20 @@ type workerOut struct {
 
 const baseTS = uint64(1700000000000)
 
-func genScenario(r *vhlib.Rng, idx int, known bool) scenario {
+// an int64 for the integer column n (stream 0: float64-exact values, stream 2: collapsing clusters)
+func genN(r *vhlib.Rng, exact bool) int64 {
+	for {
+		v := genInt64(r, exact)
+		if v.Kind == "I" || v.Bits < 1<<63 {
+			return int64(v.Bits)
+		}
+	}
+}
+
+// stream: 0 main, 1 values of v closer than 1e-4 (known finding), 2 values of n above 2^53 with
+// coinciding float64 images (known finding)
+func genScenario(r *vhlib.Rng, idx int, stream int) scenario {
+	known := stream != 0
 	sc := scenario{Index: fmt.Sprintf("c05ix%d", idx), MaxProcs: vhlib.Pick(r, []int{1, 1, 2, 3, 0})}
 	nsteps := r.Range(1, 6)
 	id := 1
@@ -1099,11 +1284,12 @@ func genScenario(r *vhlib.Rng, idx int, known bool) scenario {
 				ev.TS = baseTS + uint64(r.Intn(spread)*gap)
 			}
 			used[ev.TS] = true
-			if known {
+			if stream == 1 {
 				ev.VM = 1000000 + int64(r.Range(-9, 9))*20
 			} else {
 				ev.VM = int64(r.Range(-2000, 2000)) * 1000
 			}
+			ev.N = genN(r, stream != 2)
 			ev.V = float64(ev.VM) / 1e6
 			id++
 			st.Events = append(st.Events, ev)
@@ -1111,6 +1297,13 @@ func genScenario(r *vhlib.Rng, idx int, known bool) scenario {
 		sc.Steps = append(sc.Steps, st)
 	}
 	total := id - 1
+	if stream == 2 {
+		sc.Queries = []querySpec{
+			{Name: "sortc_n_asc", Text: "* | sort 10000 num(n)", Size: 1000},
+			{Name: "sortc_n_desc", Text: "* | sort 10000 -n", Size: 1000},
+		}
+		return sc
+	}
 	if known {
 		sc.Queries = []querySpec{
 			{Name: "sortk_num_asc", Text: "* | sort 10000 num(v)", Size: 1000},
@@ -1133,6 +1326,7 @@ func genScenario(r *vhlib.Rng, idx int, known bool) scenario {
 		{"num_asc", "num(v)"}, {"num_desc", "-num(v)"}, {"auto_asc", "v"}, {"auto_desc", "-auto(v)"},
 		{"str_asc", "str(s)"}, {"str_desc", "-str(s)"}, {"autos_asc", "s"},
 		{"g_asc,v_desc", "g, -num(v)"}, {"g_desc,s_asc,v_asc", "-g, str(s), v"},
+		{"n_asc", "num(n)"}, {"n_desc", "-n"}, {"g_asc,n_desc", "g, -auto(n)"},
 	}
 	for _, i := range []int{r.Intn(len(sorts)), r.Intn(len(sorts)), r.Intn(len(sorts))} {
 		s := sorts[i]
@@ -1164,6 +1358,12 @@ func sortKeys(name string) []ele {
 		return []ele{{true, "auto"}, {false, "num"}}
 	case "g_desc,s_asc,v_asc":
 		return []ele{{false, "auto"}, {true, "str"}, {true, "auto"}}
+	case "n_asc":
+		return []ele{{true, "num"}}
+	case "n_desc":
+		return []ele{{false, "auto"}}
+	case "g_asc,n_desc":
+		return []ele{{true, "auto"}, {false, "auto"}}
 	}
 	return nil
 }
@@ -1172,7 +1372,12 @@ func keyVals(name string, ev event) []val {
 	v := val{Kind: "f", Micro: ev.VM}
 	s := val{Kind: "s", S: ev.S}
 	g := val{Kind: "i", Micro: int64(ev.G) * 1000000}
+	n := val{Kind: "I", Bits: uint64(ev.N)}
 	switch name {
+	case "n_asc", "n_desc":
+		return []val{n}
+	case "g_asc,n_desc":
+		return []val{g, n}
 	case "num_asc", "num_desc", "auto_asc", "auto_desc":
 		return []val{v}
 	case "str_asc", "str_desc", "autos_asc":
@@ -1185,7 +1390,8 @@ func keyVals(name string, ev event) []val {
 	return nil
 }
 
-func judgeScenario(sum *vhlib.Summary, sc scenario, out workerOut, known bool, sortTerms *[]string) {
+func judgeScenario(sum *vhlib.Summary, sc scenario, out workerOut, knownClass string, sortTerms *[]string) {
+	known := knownClass != ""
 	var evs []event
 	byID := map[int]event{}
 	for _, st := range sc.Steps {
@@ -1319,7 +1525,7 @@ func judgeScenario(sum *vhlib.Summary, sc scenario, out workerOut, known bool, s
 					break
 				}
 			}
-		case "sort", "sortk_num_asc", "sortk_num_desc":
+		case "sort", "sortk_num_asc", "sortk_num_desc", "sortc_n_asc", "sortc_n_desc":
 			parts := strings.Split(q.Name, ":")
 			name := ""
 			limit := len(evs)
@@ -1330,6 +1536,10 @@ func judgeScenario(sum *vhlib.Summary, sc scenario, out workerOut, known bool, s
 				}
 			} else if kind == "sortk_num_asc" {
 				name = "num_asc"
+			} else if kind == "sortc_n_asc" {
+				name = "n_asc"
+			} else if kind == "sortc_n_desc" {
+				name = "n_desc"
 			} else {
 				name = "num_desc"
 			}
@@ -1341,8 +1551,8 @@ func judgeScenario(sum *vhlib.Summary, sc scenario, out workerOut, known bool, s
 			for _, rw := range rows {
 				res = append(res, keyVals(name, byID[rw.ID]))
 			}
-			judgeSorted(sum, "e2e", eles, all, res, limit, known, what, c)
-			if !known && len(*sortTerms) < 400 {
+			judgeSorted(sum, "e2e", eles, all, res, limit, knownClass, what, c)
+			if knownClass == clsCollapse || (knownClass == "" && len(*sortTerms) < 400) {
 				et := make([]string, len(eles))
 				for k, e := range eles {
 					et[k] = e.coq()
@@ -1367,7 +1577,9 @@ func judgeScenario(sum *vhlib.Summary, sc scenario, out workerOut, known bool, s
 		if kind == "all" {
 			sum.Count(fmt.Sprintf("e2e/layout/maxBlocks_per_fetch=%d", sc.MaxProcs))
 		}
-		if known {
+		if knownClass == clsCollapse {
+			sum.Count("e2e/known_stream_int_float64_collapse")
+		} else if known {
 			sum.Count("e2e/known_stream_close_values")
 		} else {
 			if kind == "page" && ties {
@@ -1395,29 +1607,39 @@ func pageSizes(p [][]row) []int {
 }
 
 func runE2E(cfg vhlib.Config, sum *vhlib.Summary, r *vhlib.Rng) {
-	n, nk := 90, 12
+	n, nk, nc := 90, 12, 6
 	if cfg.Thorough() {
-		n, nk = 1500, 100
+		n, nk, nc = 1500, 100, 50
 	}
 	type job struct {
 		sc    scenario
-		known bool
+		known string // class of the known-finding stream the scenario belongs to ("" = main stream)
 		out   workerOut
 	}
-	jobs := make([]*job, 0, n+nk)
-	ra, rb := r.Fork(), r.Fork()
+	jobs := make([]*job, 0, n+nk+nc+2)
+	ra, rb, rc := r.Fork(), r.Fork(), r.Fork()
 	for i := 0; i < n; i++ {
-		jobs = append(jobs, &job{sc: genScenario(ra, i, false)})
+		jobs = append(jobs, &job{sc: genScenario(ra, i, 0)})
 	}
 	for i := 0; i < nk; i++ {
-		jobs = append(jobs, &job{sc: genScenario(rb, n+i, true), known: true})
+		jobs = append(jobs, &job{sc: genScenario(rb, n+i, 1), known: clsTolerance})
 	}
+	for i := 0; i < nc; i++ {
+		jobs = append(jobs, &job{sc: genScenario(rc, n+nk+i, 2), known: clsCollapse})
+	}
+	// a fixed scenario for the float64 collapse of integer keys: `sort num(n)` compares 2^53+1
+	// EQUAL to 2^53, so whichever way ties come out, a 2^53+1 stays in front of a 2^53
+	fixedC := scenario{Index: "c05fixedc", Steps: []step{{Events: []event{
+		{ID: 1, TS: baseTS + 1, N: 1<<53 + 1}, {ID: 2, TS: baseTS + 2, N: 1 << 53},
+		{ID: 3, TS: baseTS + 3, N: 1<<53 + 1}, {ID: 4, TS: baseTS + 4, N: 1 << 53}}}},
+		Queries: []querySpec{{Name: "sortc_n_asc", Text: "* | sort 10000 num(n)", Size: 100}}}
+	jobs = append([]*job{{sc: fixedC, known: clsCollapse}}, jobs...)
 	// a fixed scenario for the known finding of DESIGN §4.1
 	fixed := scenario{Index: "c05fixed", Steps: []step{{Events: []event{
 		{ID: 1, TS: baseTS + 1, VM: 1000050, V: 1.00005}, {ID: 2, TS: baseTS + 2, VM: 1000000, V: 1},
 		{ID: 3, TS: baseTS + 3, VM: 1000120, V: 1.00012}, {ID: 4, TS: baseTS + 4, VM: 999960, V: 0.99996}}}},
 		Queries: []querySpec{{Name: "sortk_num_asc", Text: "* | sort 10000 num(v)", Size: 100}}}
-	jobs = append([]*job{{sc: fixed, known: true}}, jobs...)
+	jobs = append([]*job{{sc: fixed, known: clsTolerance}}, jobs...)
 
 	// one worker process per scenario; a worker that does not finish within the cap is
 	// re-run alone once at the end (a hang under parallel load is not reported unconfirmed);
@@ -1510,7 +1732,7 @@ func runE2E(cfg vhlib.Config, sum *vhlib.Summary, r *vhlib.Rng) {
 			continue
 		}
 		judgeScenario(sum, j.sc, j.out, j.known, &sortTerms)
-		if i == 1 {
+		if i == 2 {
 			sum.Sample(map[string]interface{}{"scenario": j.sc, "results": j.out.Results})
 		}
 	}
@@ -1525,9 +1747,9 @@ func main() {
 		return
 	}
 	cfg := vhlib.ParseFlags()
-	sum := vhlib.NewSummary("direct tier: one case = one call of the real getNextBlocks / sortBlocks / getValidRRCs (all block lists of up to 4 blocks over timestamps 0..4 sorted for the mode x maxBlocks 1..5 x both modes; all lists of up to 3 blocks for sortBlocks; all sorted timestamp lists up to length 4 x thresholds 0..5; random larger ones), one multi-step run of the real segment selection (getQSRSToProcess+getFilteredBlocks) over 0-5 overlapping segments, one compareValues pair, one sortProcessor run over 1-5 batches (1-3 keys, num/str/auto, both directions, limits 1..5000, homogeneous and mixed columns incl. numeric strings and nulls), one head/tail processor run; " +
-		"end to end: one case = one query against a store built in a worker process from 1-6 flushes (blocks) with forced rotations (segments), events arriving out of time order with ties and overlapping block/segment ranges: match-all with size >= n and size < n, head n, tail n, sort (9 key shapes) with head / limit, from/size paging over all pages; " +
-		"the known-finding class (numeric sort keys closer than 1e-4) has its own stream, main-stream numeric sort keys are multiples of 1e-3; distinct by input; non-trivial = more than one block / record / event")
+	sum := vhlib.NewSummary("direct tier: one case = one call of the real getNextBlocks / sortBlocks / getValidRRCs (all block lists of up to 4 blocks over timestamps 0..4 sorted for the mode x maxBlocks 1..5 x both modes; all lists of up to 3 blocks for sortBlocks; all sorted timestamp lists up to length 4 x thresholds 0..5; random larger ones), one multi-step run of the real segment selection (getQSRSToProcess+getFilteredBlocks) over 0-5 overlapping segments, one compareValues pair, one sortProcessor run over 1-5 batches (1-3 keys, num/str/auto, both directions, limits 1..5000, homogeneous and mixed columns incl. numeric strings, bools and nulls; numbers = floats with 3 decimals, small ints and integer-typed values of both dtypes SS_DT_SIGNED_NUM / SS_DT_UNSIGNED_NUM over the whole int64 / uint64 range: neighbourhoods of 0, 2^53, 2^62, 2^63, 2^64, MinInt64, random 53-bit mantissas shifted by 0..10 bits), one head/tail processor run; " +
+		"end to end: one case = one query against a store built in a worker process from 1-6 flushes (blocks) with forced rotations (segments), events arriving out of time order with ties and overlapping block/segment ranges: match-all with size >= n and size < n, head n, tail n, sort (12 key shapes incl. an int64 column n with values up to +-2^63) with head / limit, from/size paging over all pages; " +
+		"the known-finding classes have their own streams (numeric sort keys closer than 1e-4; integer keys above 2^53 with coinciding float64 images), main-stream numeric sort keys are multiples of 1e-3 or integers that float64 represents exactly; distinct by input; non-trivial = more than one block / record / event")
 	r := vhlib.NewRng(cfg.Seed)
 	runE2E(cfg, sum, r.Fork())
 	runNextBlocks(cfg, sum, r.Fork())
@@ -1539,7 +1761,8 @@ func main() {
 	runSortProc(cfg, sum, r.Fork())
 	runHeadTail(cfg, sum, r.Fork())
 	sum.Notes = append(sum.Notes,
-		"numeric sort keys are decimals with at most 6 places; the model compares them as exact integers in units of 1e-6 (float64 rounding is not modelled; main-stream keys are multiples of 1e-3, far from the 1e-4 tolerance boundary)",
+		"numeric sort keys are decimals with at most 6 places; the model compares them as exact integers in units of 1e-6 (float64 rounding of decimals is not modelled; main-stream keys are multiples of 1e-3, far from the 1e-4 tolerance boundary)",
+		"integer-typed keys go to the model as (dtype, 64-bit pattern): the model reads the bits per dtype and applies its own float64 conversion (round to 53 bits, nearest-even), so the collapse stream is compared with the model too",
 		"sort.Slice / the top-N heap are not stable: observations are compared with the model up to ties (equal keys)")
 	sum.Write(cfg.Out)
 }
